@@ -4,6 +4,7 @@ package mc
 
 import (
 	"fmt"
+	oracletypes "github.com/elys-network/elys/x/oracle/types"
 	"time"
 
 	"cosmossdk.io/math"
@@ -29,6 +30,22 @@ func addC10Ops(l *OpLib) {
 		}
 		p.Txs = one("t1", llpOpen(w.A("t1"), "3", 1e9, sl))
 	})
+	// a LARGE position (~15 % of the pool's shares) with a tight stop-loss and a small one with a loose
+	// stop-loss: when the large one is force-closed, the pool's share count and TVL change a lot within
+	// ONE ClosePositions message before the small one is judged
+	llpSL := func(name, who, lev string, amt int64, frac string) {
+		l.Add(name, "llp_open", 0, func(w *World, p *BlockPlan) {
+			pool, _ := w.App.AmmKeeper.GetPool(w.RCtx(), 1)
+			lp, err := pool.LpTokenPrice(w.RCtx(), w.App.OracleKeeper, w.App.AccountedPoolKeeper)
+			sl := "0"
+			if err == nil {
+				sl = lp.Mul(Dec(frac)).String()
+			}
+			p.Txs = one(who, llpOpen(w.A(who), lev, amt, sl))
+		})
+	}
+	llpSL("llp_open_t2_x5_big_sl3", "t2", "5", 3e11, "0.97")
+	llpSL("llp_open_t3_x3_sl15", "t3", "3", 1e9, "0.85")
 	l.Add("perp_open_long_t1_stoploss", "perp_open", 0, func(w *World, p *BlockPlan) {
 		m := perpOpen(w.A("t1"), perptypes.Position_LONG, "2", C("uusdc", 1e9), mulDecStr(w.Env.Atom, "1.6")).(*perptypes.MsgOpen)
 		m.StopLossPrice = Dec(mulDecStr(w.Env.Atom, "0.9"))
@@ -105,8 +122,14 @@ type c10Snap struct {
 }
 
 // c10Snapshot evaluates every stored position on a cache of the committed state at header (h, tm).
-func c10Snapshot(w *World, h, tm int64, withHealth bool) *c10Snap {
+func c10Snapshot(w *World, h, tm int64, withHealth bool, atom ...string) *c10Snap {
 	ctx := w.CtxAt(h, tm)
+	if len(atom) > 0 && atom[0] != "" {
+		// the block about to run feeds a new ATOM price BEFORE its third-party tx: judge closability at
+		// the price that tx will see (on a discarded branch)
+		ctx, _ = ctx.CacheContext()
+		w.App.OracleKeeper.SetPrice(ctx, oracletypes.Price{Asset: "ATOM", Price: Dec(atom[0]), Source: "elys", Provider: "verif", Timestamp: uint64(tm), BlockHeight: uint64(h)})
+	}
 	s := &c10Snap{pos: map[string]*c10Pos{}, wallets: map[string]sdk.Coins{}}
 	s.sfLlp = w.App.LeveragelpKeeper.GetParams(ctx).SafetyFactor
 	s.sfPerp = w.App.PerpetualKeeper.GetSafetyFactor(ctx)
@@ -213,7 +236,26 @@ func OracleC10() *Oracle {
 			if dt == 0 {
 				dt = 5
 			}
-			return c10Snapshot(w, w.Height()+1, w.Env.Tm+dt, true)
+			snap := c10Snapshot(w, w.Height()+1, w.Env.Tm+dt, true)
+			if plan.SetAtom != "" && len(plan.Txs) > 0 {
+				// a block that feeds a new price AND carries txs: its begin-block sweep still sees the OLD price, its
+				// third-party txs the NEW one — a position may be force-closed if it is closable at either
+				at := c10Snapshot(w, w.Height()+1, w.Env.Tm+dt, true, plan.SetAtom)
+				for k, p := range snap.pos {
+					q, ok := at.pos[k]
+					if !ok {
+						continue
+					}
+					if q.healthE != "" {
+						p.healthE = q.healthE
+					} else if p.healthE == "" && q.health.LT(p.health) {
+						p.health = q.health
+					}
+					p.stop = p.stop || q.stop
+					p.tp = p.tp || q.tp
+				}
+			}
+			return snap
 		},
 		Post: func(t *Transition) []Finding {
 			w := t.W
